@@ -233,10 +233,12 @@ func judgeRejectedOrFaithful(r *core.Run, p *tvPkg, verdicts map[string]string, 
 	r.Eval(1)
 	atom := stripVariant(p.Name)
 	if p.Crashed {
-		// a crash is neither a rejection nor a translation; it is C07's subject and reported there
-		r.Inconclusive("goose-crash")
+		// a crash is neither a rejection with a located error nor a faithful translation. (C07 is the property
+		// about crashes as such, but it does not run these inputs: staying silent here would hide the crash.)
 		r.Count("atoms_crashing_goose", 1)
 		verdicts[atom] = "goose-crash"
+		r.Violate(sigPrefix+strings.TrimPrefix(atom, "o_")+"-goose-crash", fmt.Sprintf("goose aborts on the package of atom %q instead of rejecting or translating it: %s", atom, firstLines(p.Stderr, 6)),
+			map[string]interface{}{"atom": atom, "stderr": p.Stderr, "source": p.Source})
 		return
 	}
 	if p.LoadFailed {
